@@ -187,17 +187,17 @@ func init() {
 			case 2:
 				id = gitfmt.HashObject("blob", []byte("no such object"))
 			case 3:
-				id = g.anyObjectID("commit")[:39]
+				id = fmt.Sprintf("@commit#%d!trunc", g.Int(0, 5, "c"))
 			case 4:
-				id = g.anyObjectID("commit") + "0"
+				id = fmt.Sprintf("@commit#%d!plus", g.Int(0, 5, "c"))
 			case 5:
 				id = strings.Repeat("z", 40)
 			case 6:
 				id = strings.Repeat("0", 40)
 			case 7:
-				id = strings.ToUpper(g.anyObjectID("commit"))
+				id = fmt.Sprintf("@commit#%d!upper", g.Int(0, 5, "c"))
 			default:
-				id = g.anyObjectID("commit")
+				id = fmt.Sprintf("@commit#%d", g.Int(0, 5, "c"))
 				ref = g.Pick([]string{"refs/heads/nosuch", "refs/heads/", "refs/heads/../../HEAD", "heads/" + b, "refs/heads/a/b", "xrefs/heads/" + b}, "badref")
 			}
 			if id == "" {
